@@ -9,7 +9,7 @@ CONSTANTS
   MaxHeartbeats = 1000000
   MaxLog = 1000000
   MaxNet = 1000000
-  MaxEnts = 1
+  MaxEnts = 0
   LossySend = FALSE
   W_CommitAnyTerm = FALSE
   W_VoteIgnoreVoted = FALSE
@@ -18,7 +18,7 @@ CONSTANTS
   W_AppendAlwaysTruncates = FALSE
   W_HeartbeatCommitUnbounded = FALSE
   W_QuorumMinusOne = FALSE
-  PreVote = FALSE
+  PreVote = TRUE
   W_PreVoteRespCountsAsVote = FALSE
 INIT TraceInit
 NEXT TraceNext
